@@ -209,3 +209,9 @@ M("c14-make-from-atoi", "C14", "V",
   ("generator/types.gotmpl", "qv := make([]string, 0, len({{ .From }}))", "qv := make([]string, 0, len({{ .From }})-1)"))
 M("c06-preserve-delete-first", "C06", "S",
   ("generator/file_components.gotmpl", "\t\t\t\tdelete(m, \"{{ .JSONTag }}\")\n\t\t\t{{- if .Required }}", "\t\t\t\tdelete(m, \"{{ .JSONTag }}\")\n\t\t\t\t_ = raw\n\t\t\t{{- if .Required }}"))
+
+# ------------------------------------------------------------------ C15 exit code
+M("c15-exit-printf", "C15", "V",
+  ("cmd/goag/main.go", "log.Fatalf(\"Error on generate: %v\", err)", "log.Printf(\"Error on generate: %v\", err)"))
+M("c15-exit-discard-dir-error", "C15", "V",
+  ("cmd/goag/main.go", "\t\terr = g.GenerateDir(", "\t\t_ = g.GenerateDir("))
